@@ -163,6 +163,9 @@ func isolationCase(c *Ctx) {
 		arg, _ := isoKeyArg(c, s.kind, s.h, s.mk)
 		s.keyArg = arg
 	}
+	var pendingDoc []byte
+	var pendingObs string
+	pendingOf := -1
 	for remaining > 0 {
 		i := c.rng.Intn(n)
 		s := structs[i]
@@ -196,7 +199,11 @@ func isolationCase(c *Ctx) {
 			}
 		} else if c.rng.Intn(8) == 0 {
 			// import-under-new-keys of this structure's export: must not touch the exporter
-			if doc, err := s.kind.eq.export(s.h); err == nil {
+			if doc, err := s.kind.eq.export(s.h); err == nil && c.rng.Intn(3) == 0 {
+				// the document is kept and imported only AFTER the exporter's next update: the copy
+				// must be the exported state (a snapshot), not whatever the exporter holds by then
+				pendingDoc, pendingObs, pendingOf = doc, raObserve(s.kind, s.h), i
+			} else if err == nil {
 				snapA := c.dbSnapshot()
 				// target: a fresh instance, or a second handle that is currently attached to ANOTHER
 				// live structure of the same kind (it moves to new keys; that structure must not notice)
@@ -281,6 +288,27 @@ func isolationCase(c *Ctx) {
 		order = append(order, i)
 		s.next++
 		remaining--
+		if pendingDoc != nil && pendingOf == i {
+			snapA := c.dbSnapshot()
+			var cp interface{}
+			safely(func() { cp, _ = s.kind.eq.imp(c, pendingDoc) })
+			c.op("import-stale-snapshot")
+			if cp != nil {
+				if got := raObserve(s.kind, cp); got != pendingObs {
+					c.fail([]string{"C19", "C10"}, "import-not-the-snapshot", fmt.Sprintf("structure %d (%s) was updated after its Export; the copy imported under new keys observes %.200q, the exported state was %.200q", i, s.kind.name, got, pendingObs),
+						map[string]interface{}{"structures": desc, "order": order})
+					return
+				}
+			}
+			others := allKeys(-1)
+			for _, k := range changedKeys(snapA, c.dbSnapshot()) {
+				if j, hit := others[k]; hit {
+					c.fail([]string{"C19", "C10"}, "import-touches-existing-key", fmt.Sprintf("importing an export of structure %d (%s) under new keys changed key %q of structure %d", i, s.kind.name, k, j), desc)
+					return
+				}
+			}
+			pendingDoc = nil
+		}
 	}
 	if n >= 3 && len(kindSet) >= 2 {
 		c.nontrivial(desc + fmt.Sprint(order))
